@@ -166,16 +166,18 @@ mod verif_replay_expr_dm {
             ("<", 9), ("<=", 9), (">", 9), (">=", 9),
             ("==", 10), ("!=", 10),
         ];
-        let tuples: [[&str; 4]; 5] = [
-            ["7", "4", "2", "3"],
-            ["1", "8", "5", "2"],
-            ["9", "2", "2", "1"],
-            ["true", "false", "true", "false"],
-            ["1.5", "2", "0.5", "4"],
+        let tuples: [[&str; 5]; 5] = [
+            ["7", "4", "2", "3", "5"],
+            ["1", "8", "5", "2", "3"],
+            ["9", "2", "2", "1", "4"],
+            ["true", "false", "true", "false", "true"],
+            ["1.5", "2", "0.5", "4", "3"],
         ];
         let mut checked = 0usize;
         let mut distinguishing = 0usize;
-        for n in 1..=3usize {
+        // thorough tier: sequences of up to four operators
+        let max_ops = if std::env::var("VERIF_THOROUGH").is_ok() { 4usize } else { 3usize };
+        for n in 1..=max_ops {
             let mut idx = vec![0usize; n];
             loop {
                 let seq: Vec<(&str, u8)> = idx.iter().map(|i| ops[*i]).collect();
@@ -212,7 +214,7 @@ mod verif_replay_expr_dm {
                 }
             }
         }
-        assert_eq!(checked, (14 + 14 * 14 + 14 * 14 * 14) * 5);
+        assert_eq!(checked, (14 + 14 * 14 + 14 * 14 * 14 + if max_ops == 4 { 14 * 14 * 14 * 14 } else { 0 }) * 5);
         assert!(distinguishing > 1000, "only {} expressions evaluated without error", distinguishing);
     }
 
@@ -239,7 +241,8 @@ mod verif_replay_expr_dm {
             };
             let mut gd = fresh();
             let mut count = 0usize;
-            for (n, alphabet) in [(1usize, 20usize), (2, 20), (3, 20), (4, 20), (5, 10)] {
+            let deep = std::env::var("VERIF_THOROUGH").is_ok(); // thorough tier: length 5 over all 20 tokens
+            for (n, alphabet) in [(1usize, 20usize), (2, 20), (3, 20), (4, 20), (5, if deep { 20 } else { 10 })] {
                 let mut idx = vec![0usize; n];
                 loop {
                     let text = idx.iter().map(|i| TOKENS[*i]).collect::<Vec<&str>>().join(" ");
@@ -273,8 +276,8 @@ mod verif_replay_expr_dm {
             }
             let _ = tx.send(count);
         });
-        match rx.recv_timeout(std::time::Duration::from_secs(300)) {
-            Ok(count) => assert_eq!(count, 20 + 400 + 8000 + 160000 + 100000),
+        match rx.recv_timeout(std::time::Duration::from_secs(900)) {
+            Ok(count) => assert!(count == 20 + 400 + 8000 + 160000 + 100000 || count == 20 + 400 + 8000 + 160000 + 3200000),
             Err(_) => panic!("evaluation of `{}` did not terminate", current.lock().unwrap()),
         }
         let p = panicked.lock().unwrap();
